@@ -246,9 +246,9 @@ def run_row(row, stub_version=None):
                 out["extra_results"][name] = getattr(fac, name)(i, key=name)
             except Exception as e:  # noqa
                 out["extra_results"][name] = f"EXC {type(e).__name__}: {e}"
-        e_s, e_p = fac.M.create(1)[0], prod.M.create(1)[0]
-        w.connect(e_p, e_s, "a")
         try:
+            e_s, e_p = fac.M.create(1)[0], prod.M.create(1)[0]
+            w.connect(e_p, e_s, "a")
             simple_sim.guarded_run(w, until=3, print_progress=False)
             out["outcome"] = "ran"
         except harness.HarnessAbort as e:
